@@ -52,6 +52,16 @@ ATTR_NAMES = cdict({
     Unicode: set(['values', 'min_len', 'max_len', 'pattern']),
 })
 
+def _to_schema_literal(prot, cls, value):
+    """Facet and default values are written into the schema as XSD literals.
+    xs:decimal has no exponent notation, so str(Decimal('1E+3')) is not one."""
+
+    if isinstance(value, D) and value.is_finite():
+        return format(value, 'f')
+
+    return prot.to_unicode(cls, value)
+
+
 def xml_attribute_add(cls, name, element, document):
     element.set('name', name)
     element.set('type', cls.type.get_type_name_ns(document.interface))
@@ -62,7 +72,7 @@ def xml_attribute_add(cls, name, element, document):
     d = cls.type.Attributes.default
 
     if d is not None:
-        element.set('default', _prot.to_unicode(cls.type, d))
+        element.set('default', _to_schema_literal(_prot, cls.type, d))
 
 
 def _check_extension_attrs(cls):
@@ -109,7 +119,7 @@ def simple_get_restriction_tag(document, cls):
 
     for v in cls.Attributes.values:
         enumeration = etree.SubElement(restriction, XSD('enumeration'))
-        enumeration.set('value', XmlDocument().to_unicode(cls, v))
+        enumeration.set('value', _to_schema_literal(XmlDocument(), cls, v))
 
     return restriction
 
@@ -241,7 +251,7 @@ def complex_add(document, cls, tags):
             member.set('maxOccurs', val)
 
         if a.default is not None:
-            member.set('default', _prot.to_unicode(v, a.default))
+            member.set('default', _to_schema_literal(_prot, v, a.default))
 
         if bool(a.nillable) != False: # False is the xml schema default
             member.set('nillable', 'true')
@@ -375,19 +385,19 @@ def Tget_range_restriction_tag(T):
 
         if cls.Attributes.gt != T.Attributes.gt:
             elt = etree.SubElement(restriction, XSD('minExclusive'))
-            elt.set('value', prot.to_unicode(cls, cls.Attributes.gt))
+            elt.set('value', _to_schema_literal(prot, cls, cls.Attributes.gt))
 
         if cls.Attributes.ge != T.Attributes.ge:
             elt = etree.SubElement(restriction, XSD('minInclusive'))
-            elt.set('value', prot.to_unicode(cls, cls.Attributes.ge))
+            elt.set('value', _to_schema_literal(prot, cls, cls.Attributes.ge))
 
         if cls.Attributes.lt != T.Attributes.lt:
             elt = etree.SubElement(restriction, XSD('maxExclusive'))
-            elt.set('value', prot.to_unicode(cls, cls.Attributes.lt))
+            elt.set('value', _to_schema_literal(prot, cls, cls.Attributes.lt))
 
         if cls.Attributes.le != T.Attributes.le:
             elt = etree.SubElement(restriction, XSD('maxInclusive'))
-            elt.set('value', prot.to_unicode(cls, cls.Attributes.le))
+            elt.set('value', _to_schema_literal(prot, cls, cls.Attributes.le))
 
         if cls.Attributes.pattern != T.Attributes.pattern:
             elt = etree.SubElement(restriction, XSD('pattern'))
